@@ -8,12 +8,12 @@ CHECKS = {
   note="'Extract and translate gives that stretch of the translation' is reduced to base-for-base equality of coding-order positions (Bio's extract concatenates parts in order, reverse-complementing on strand -1: trusted). Known finding C09-1 (TTA marker by start+offset) is reported as KNOWN-FINDING. Prepeptide leader/core/tail call the checked function with concrete string lengths and are not separately explored.",
   ref="3/C09"),
  "C10": dict(
-  text="Bounded symbolic model checking, at object level, of the GenBank path (Record.to_biopython -> Record.from_biopython with every feature class's to/from_biopython) and the JSON path (record_to_json / feature_to_json -> record_from_json / feature_from_json / location_from_string) on a record with a gene, 1-2 (thorough: 3) protoclusters (core inside extent, optionally origin-spanning, optionally identical coordinates), the candidate clusters and regions the real formation code builds, and an optional subregion, all coordinates and the record length symbolic: the reloaded record has the same genes, protoclusters (product, location, core, cutoff, neighbourhood, number), candidates (kind, location, members, number), subregions and regions (location, candidate and subregion numbers, number) and gene-to-region links; converting the reloaded record again gives an identical feature table (fixed point); a second reload equals the first.",
-  note="The text layers - Bio.SeqIO GenBank writer/parser and json.dumps/loads - are modelled as identity on the feature / JSON tree and are outside the claim, as are domains, motifs, modules, gene functions and the sequence content (a length carrier).",
+  text="Bounded symbolic model checking, at object level, of the GenBank path (Record.to_biopython -> Record.from_biopython with every feature class's to/from_biopython) and the JSON path (record_to_json / feature_to_json -> record_from_json / feature_from_json / location_from_string) on a record with a gene, 1-2 (thorough: 3) protoclusters (core inside extent, optionally origin-spanning, optionally identical coordinates), the candidate clusters and regions the real formation code builds, and an optional subregion, all coordinates and the record length symbolic: the reloaded record has the same genes, protoclusters (product, location, core, cutoff, neighbourhood, number), candidates (kind, location, members, number), subregions and regions (location, candidate and subregion numbers, number) and gene-to-region links; converting the reloaded record again gives an identical feature table (fixed point); a second reload equals the first. A second harness does the same for every other feature class with its own to/from pair, one kind per variant on a gene of symbolic shape (simple / two exons / origin-spanning, either strand): gene functions + sec_met + NRPS/PKS qualifiers, PFAM domains with GO terms, plain and modular aSDomains, antiSMASH-made and external CDS motifs, prepeptides (every leader / tail combination), aSModules, gene / source / misc features with notes, codon_start genes with notes, sideloaded protoclusters / subregions; annotation coordinates, protein coordinates and insertion orders symbolic; additionally: writing twice gives the same output and leaves the record unchanged, same object-level annotations after each reload.",
+  note="The text layers - Bio.SeqIO GenBank writer/parser and json.dumps/loads - are modelled as a copy of the feature / JSON tree and are outside the claim, as are free-text contents (descriptions, names, scores are fixed typical values: parsing arbitrary text with regular expressions is out of reach) and the sequence content (a length carrier).",
   ref="3/C10"),
  "C11": dict(
-  text="Bounded symbolic model checking, at object level, of save / regenerate cycles: RuleDetectionResults + CDSResults (one protocluster with symbolic core/extent/cutoff/neighbourhood, simple or origin-spanning; saved schema version symbolic), TTAResults (codon positions, record GC content and old/new thresholds symbolic reals, schema symbolic), HmmerResults.from_json + refilter (2 hits with symbolic coordinates / scores / e-values, old and new max e-value / min score symbolic, record id and schema matching or not) and NRPS/PKS Module.to_json/from_json (symbolic domain names, lengths 2-3 and carrier-protein-led length 4): results saved, regenerated and saved again are identical trees, the regenerated results add the same features, results of another schema version / record are discarded, looser settings are refused and stricter ones refiltered exactly.",
-  note="JSON text (json.dumps/loads) is identity on the tree; main.run_module orchestration, the sideloader (jsonschema) and other modules are outside the claim.",
+  text="Bounded symbolic model checking, at object level, of save / regenerate cycles: RuleDetectionResults + CDSResults (one protocluster with symbolic core/extent/cutoff/neighbourhood, simple or origin-spanning; saved schema version symbolic), TTAResults (codon positions, record GC content and old/new thresholds symbolic reals, schema symbolic), HmmerResults.from_json + refilter (2 hits with symbolic coordinates / scores / e-values, old and new max e-value / min score symbolic, record id and schema matching or not) NRPS/PKS Module.to_json/from_json (symbolic domain names, lengths 2-3 and carrier-protein-led length 4), SideloadedResults (one protocluster and one subregion annotation with symbolic coordinates / neighbourhoods on linear and circular records, schema symbolic) and NRPSPKSDomains (generate_domains with the HMMER calls stubbed by symbolic hits -> JSON -> from_json on a fresh record copy -> add_to_record: fixed architectures incl. a module merged over two genes and loader-only modules, symbolic gene locations and protein coordinates, schema / record id matching or not): results saved, regenerated and saved again are identical trees, the regenerated results add the same features, results of another schema version / record are discarded, looser settings are refused and stricter ones refiltered exactly.",
+  note="JSON text (json.dumps/loads) is identity on the tree; main.run_module orchestration, JSON-schema validation of sideloaded files, the HMMER runs themselves and the remaining modules are outside the claim.",
   ref="3/C11"),
  "C12": dict(
   text="Bounded symbolic model checking of write_to_genbank / _build_base_record / _build_record_from_cross_origin / _adjust_features / _adjust_protocluster / _adjust_motif on a region (simple or origin-spanning) with a protocluster, candidate cluster, optional subregion, a gene (simple or origin-spanning on either strand) and a prepeptide-style motif, with symbolic coordinates and record length and - the point of doing it symbolically - symbolic record-wide numbers of the areas (any region of any record): the extract has the region's length, contains every feature shifted so that it covers the same bases (for all x), all numbers and cross references are renumbered from 1 consistently, core/leader locations are shifted with the region, and the full record's locations and qualifiers are unchanged afterwards.",
